@@ -358,7 +358,7 @@ func (r *results) writeEvidence(violations, validated int, inconclusive, unconfi
 func assumptionsFor(prop string) []string {
 	base := []string{
 		"go/packages + go/ssa (x/tools v0.29.0) build the SSA that is executed; the executor's instruction semantics are validated per run against the native build on sampled paths",
-		"z3 4.8.12 decides every query (fallback: z3 5.1, cvc5 1.0); unknown/timeout makes the run inconclusive, never passing",
+		"z3 5.1.0 (z3-new) decides every query (fallback on unknown: z3 4.8.12, cvc5 1.0, cvc5 --solve-bv-as-int=sum; thorough tier re-checks assertion queries on cvc5); unknown/timeout makes the run inconclusive, never passing",
 		"bounds are those listed under coverage.bounds; nothing outside them is claimed",
 		"library code behind contract stubs (strconv digit strings, fmt, time layout formatting, encoding/json, base64) is trusted to meet its documented contract",
 	}
